@@ -78,6 +78,7 @@ pub fn problems_for(tier: Tier, scope: Scope) -> Vec<(String, PProblem)> {
     // clustering: accounting rules, and of the reporting rules only "overall statistic == sum of the tours"
     if matches!(scope, Scope::Accounting | Scope::Reporting) {
         out.extend(family_cluster().into_iter().map(|p| ("cluster".to_string(), p)));
+        out.extend(family_cluster_walk().into_iter().map(|p| ("cluster".to_string(), p)));
     }
     // feature interaction: every pair (thorough: and every triple) of the feature transforms
     out.extend(family_combo(1).into_iter().chain(family_combo(2)).map(|p| ("combo".to_string(), p)));
@@ -141,6 +142,9 @@ fn judge_solved(family: &str, problem: &PProblem, scen: Value, scope: Scope, sol
                     family != "cluster"
                         || f.rule.starts_with("C02:")
                         || f.rule == "C03:statistic-total"
+                        || f.rule.starts_with("C03:commute-")
+                        || f.rule == "C03:statistic-commuting"
+                        || f.rule == "C03:statistic-parking"
                         || ["C01:skills", "C01:group", "C01:compatibility", "C01:capacity", "C01:negative-load"].contains(&f.rule.as_str())
                 })
                 .filter(|f| family != "reqbreak" || f.rule.starts_with("C02:") || f.rule.starts_with("C01:required-break") || f.rule == "C01:capacity")
